@@ -266,7 +266,13 @@ class Machine:
             envs = {w.env_of.get(t) for t in targets}
             if len(envs) != 1 or None in envs:
                 raise Inapplicable("targets not in one envelope")
-            return w.envs[envs.pop()]
+            env = w.envs[envs.pop()]
+            if env.measured:
+                # a retired envelope is no entry point any more (its surviving member is addressed
+                # through itself or its composite envelope); what Envelope.measured is after a
+                # partial measurement is not fixed by any property
+                raise Inapplicable("envelope retired")
+            return env
         if entry not in w.ces:
             raise Inapplicable("no such composite")
         mem = w.ce_members(entry)
@@ -429,7 +435,7 @@ class Machine:
             nmax = sum(post_c[pre.names.index(m)] for m in modes)
             d0 = ref.number_distribution(ref.pad(pre.rho, pre.dims, post_c), post_c, [pre.names.index(m) for m in modes], nmax)
             d1 = ref.number_distribution(got, post_c, [pre.names.index(m) for m in modes], nmax)
-            if np.max(np.abs(d0 - d1)) > 1e-8:
+            if np.max(np.abs(d0 - d1)) > 1e-8 + 2.0 * contraction_slack(post, want, pre.names, post_c):
                 raise Tagged(["C11"], "number-distribution", f"{op['type']} on {targets} changed the total photon number distribution by {np.max(np.abs(d0 - d1)):.3e}", site)
         self.invariants(pre, post, targets, site, allow_merge=len(targets) >= 2)
         return dict(outcome="applied", pre=pre, post=post, site=site, td=td)
@@ -543,8 +549,17 @@ class Machine:
             raise Tagged(props, "subsystems-changed", f"{call} changed the set of live subsystems", site)
         a, b, _ = align(pre, post, pre.names)
         td = ref.trace_distance(a, b)
-        nearly = False
-        if td > 1e-9:
+        slack = 0.0
+        if call in ("contract", "env_contract"):
+            # documented tolerance of contract(tol=1e-6): a nearly pure matrix may be replaced by its
+            # dominant eigenvector; that moves the state by about the purity deficit
+            for x in addressed:
+                bb, ab = pre.block_of(x), post.block_of(x)
+                if bb.rep == "matrix" and ab.rep != "matrix":
+                    deficit = 1.0 - ref.purity(bb.rho())
+                    if 1e-15 < deficit < 1e-5:
+                        slack = max(slack, 2.0 * deficit)
+        if td > 1e-9 + slack:
             raise Tagged(props, "state-changed", f"{call} {({k: v for k, v in st.items() if k not in ('k',)})} moved the joint state by {td:.3e}", dict(site, what="state"))
         # representation rules for expand / contract (C08)
         if call in ("expand", "env_expand", "ce_expand"):
